@@ -6,6 +6,8 @@ CONSTANTS
   Lens = {3, 5}
   ASet = {3}
   ARef = 2
+  Search = "each"
+  OvlN = 2
   Licensed = TRUE
   Export = FALSE
 INVARIANT LikelihoodOfFullGrid
